@@ -1007,6 +1007,7 @@ class SSHConnection(SSHPacketHandler, asyncio.Protocol):
         self._auth_complete = False
         self._auth_final = False
         self._auth_request_seq = 0
+        self._auth_begun_username: Optional[str] = None
         self._auth_methods = [b'none']
         self._auth_was_trivial = True
         self._username = ''
@@ -2525,9 +2526,12 @@ class SSHConnection(SSHPacketHandler, asyncio.Protocol):
                 self.logger.info('Beginning auth for user %s', username)
 
                 self._username = username
-                begin_auth = True
-            else:
-                begin_auth = False
+
+            # Authentication for this user has only begun once
+            # begin_auth() was called and answered for it; a request
+            # naming the same user as one which was aborted before
+            # that point must not skip it
+            begin_auth = username != self._auth_begun_username
 
             # A new request aborts whatever is still in progress for
             # earlier requests (RFC 4252 section 5.1), so that a late
@@ -2563,6 +2567,8 @@ class SSHConnection(SSHPacketHandler, asyncio.Protocol):
 
             if request_seq != self._auth_request_seq:
                 return
+
+            self._auth_begun_username = self._username
 
             if not result:
                 await self.send_userauth_success()
